@@ -205,4 +205,15 @@ CHECKS = {
             part("c20b", "pkg/hook", "TestVerifC20b", ["zz_verif_c20_test.go"], shards={"quick": 8, "thorough": 8}),
         ],
     },
+    "C19": {
+        "level": "model_checking",
+        "engine": "E2",
+        "technique": "exhaustive enumeration of (context type, handler subset, binding name, array shape, failing position) on the real bash framework with real bash and jq",
+        "level_text": "Generated hook scripts source the working tree's shell_lib.sh and frameworks/shell/*.sh and define a chosen subset of handler functions that log their name and BINDING_CONTEXT_CURRENT_INDEX and return a scripted status. Enumerated: 10 context types x every subset of that type's candidate handler names plus __main__ x binding names {pods, my-binding, 'Monitor pods in cache tier'} with the selected handler succeeding or failing; arrays of 2-3 contexts of different types with a failing or missing handler at each position; --config. Oracle: exactly the first defined candidate (most to least specific, then __main__) is invoked per context with that context's index, the run stops with a non-zero status at the first failing or unserved context and succeeds otherwise.",
+        "level_note": "Trusted: bash and jq of the image. The candidate lists in the reference are taken from the framework source, which is the only place they are documented.",
+        "rule": "product enumeration; non-trivial = more than one handler defined or more than one context; distinct = distinct (invoked handlers, success)",
+        "parts": [
+            part("c19", "pkg/zzverif/c19", "TestVerifC19", ["zz_verif_c19_test.go"], shards={"quick": 16, "thorough": 16}),
+        ],
+    },
 }
